@@ -153,6 +153,9 @@ breaking('GR3-nonunits', {'C14': 'GR3'}, edit=[(M + 'group/_internal.py', "eleme
 breaking('GR4-odd-parity', {'C14': 'GR4'}, edit=[(M + 'group/_symmetric.py', "if sum((len(x)-1) for x in y)%2==0:", "if sum(len(x) for x in y)%2==0:")])
 breaking('GR5-hook-off-by-one', {'C14': 'GR5'}, edit=[(M + 'group/_symmetric.py', "tmp2 = (mask[::-1].cumsum(axis=0)[::-1] + mask[:,::-1].cumsum(axis=1)[:,::-1] - 1)", "tmp2 = (mask[::-1].cumsum(axis=0)[::-1] + mask[:,::-1].cumsum(axis=1)[:,::-1])")])
 breaking('GR6-recurrence-same-m', {'C14': 'GR6'}, edit=[(M + 'group/_symmetric.py', "z0[n,m] = z0[n-r*m, m-1].sum()", "z0[n,m] = z0[n-r*m, m].sum()")])
+breaking('G6-diag-scale', {'C16': 'G6'}, edit=[(M + 'gellmann.py', "data = np.sqrt(2/(i*(i+1)))*np.array([1]*i + [-i])", "data = np.sqrt(2/(i*(i-1)))*np.array([1]*i + [-i])")])
+breaking('G6-diag-not-traceless', {'C16': 'G6'}, edit=[(M + 'gellmann.py', "data = np.sqrt(2/(i*(i+1)))*np.array([1]*i + [-i])", "data = np.sqrt(2/(i*(i+1)))*np.array([1]*i + [i])")])
+breaking('G6-identity-norm', {'C16': 'G6'}, edit=[(M + 'gellmann.py', "data = np.ones(d)*(np.sqrt(2/d))", "data = np.ones(d)*(np.sqrt(1/d))")])
 breaking('refix-get_gme_2qubit', {'C13': 'F2', 'C05': 'F2'}, patch_reverse='fix_78cd862.diff')
 
 # ---- textual breaking edits, one per rule family
